@@ -74,7 +74,7 @@ pub fn parse_tree(s: &str) -> Snap {
 }
 
 /// run the invocations one after another in a fresh directory; returns the rendered results
-pub fn run_case(tree: &Snap, invocations: &[Vec<String>]) -> Vec<String> {
+fn run_case_inner(tree: &Snap, invocations: &[Vec<String>]) -> Vec<String> {
     let dir = tempfile::Builder::new().prefix("rqw").tempdir_in("/verif/build/tmp").unwrap();
     let base = dir.path().join("w");
     std::fs::create_dir(&base).unwrap();
@@ -99,7 +99,20 @@ pub fn run_case(tree: &Snap, invocations: &[Vec<String>]) -> Vec<String> {
         let (_, meta_before) = { let _ = &meta_before; snapshot(&base) };   // link counts changed ctime: re-read
         let mut args: Vec<String> = vec!["push".to_string(), "-d".to_string(), base.to_str().unwrap().to_string()];
         args.extend(inv.iter().cloned());
+        // stderr of the tool goes to a file for this invocation: the "Patch <name> FAILED" line is an observable
+        let err_path = dir.path().join(format!("stderr{}", inv_no));
+        let err_file = std::fs::File::create(&err_path).unwrap();
+        unsafe { libc::dup2(std::os::unix::io::AsRawFd::as_raw_fd(&err_file), 2); }
         let r = std::panic::catch_unwind(|| crate::cmd::run(args.iter()));
+        unsafe { let null = libc::open(b"/dev/null\0".as_ptr() as *const libc::c_char, libc::O_WRONLY); libc::dup2(null, 2); libc::close(null); }
+        drop(err_file);
+        let err_text = std::fs::read(&err_path).unwrap_or_default();
+        let _ = std::fs::remove_file(&err_path);
+        // strip colour escape sequences (ESC [ ... m)
+        let err_text: Vec<u8> = { let mut o = Vec::new(); let mut i = 0; while i < err_text.len() { if err_text[i] == 0x1b && i + 1 < err_text.len() && err_text[i + 1] == b'[' { i += 2; while i < err_text.len() && err_text[i] != b'm' { i += 1; } i += 1; } else { o.push(err_text[i]); i += 1; } } o };
+        let failed_patch: String = err_text.split(|&b| b == b'\n')
+            .filter_map(|l| { let l = std::str::from_utf8(l).ok()?; let l = l.strip_prefix("Patch ")?; l.strip_suffix(" FAILED").map(|x| x.to_string()) })
+            .next().map(|n| hex(n.as_bytes())).unwrap_or("-".to_string());
         let exit = match r { Ok(Ok(true)) => 0, Ok(Ok(false)) => 1, Ok(Err(_)) => 1, Err(_) => 101 };
         let (after, meta_after) = snapshot(&base);
         let newino: Vec<String> = after.iter().filter(|(_, e)| matches!(e, Entry::File(..)))
@@ -121,11 +134,36 @@ pub fn run_case(tree: &Snap, invocations: &[Vec<String>]) -> Vec<String> {
         let outside_ok = out_names == vec!["outside".to_string(), format!("twin{}", inv_no), "w".to_string()]
             && std::fs::read(dir.path().join("outside")).map(|c| c == b"sentinel\n").unwrap_or(false);
         std::fs::remove_dir_all(&twin).unwrap();
-        results.push(format!("exit={};tree={};newino={};same={};twin={};outside={}", exit, render_tree(&after),
+        results.push(format!("exit={};failed={};tree={};newino={};same={};twin={};outside={}", exit, failed_patch, render_tree(&after),
             if newino.is_empty() { "-".to_string() } else { newino.join(",") }, same as u8,
             if twin_changed.is_empty() { "ok".to_string() } else { twin_changed.join(",") }, if outside_ok { "ok" } else { "changed" }));
     }
     results
+}
+
+/// for a `--dry-run` invocation: what a real run of the same invocation on the same tree reports
+/// (exit status and failing patch) — C10 says the dry run must predict exactly that
+fn real_outcome(tree: &Snap, prior: &[Vec<String>], inv: &[String]) -> String {
+    let mut invs: Vec<Vec<String>> = prior.to_vec();
+    invs.push(inv.iter().filter(|a| *a != "--dry-run").cloned().collect());
+    let (active, script) = crate::verif::sched_pause();
+    let res = run_case_inner(tree, &invs);
+    crate::verif::sched_resume(active, script);
+    let last = res.last().cloned().unwrap_or_default();
+    let get = |k: &str| last.split(';').find(|x| x.starts_with(k)).map(|x| x[k.len()..].to_string()).unwrap_or_default();
+    format!("rexit={};rfailed={}", get("exit="), get("failed="))
+}
+
+pub fn run_case(tree: &Snap, invocations: &[Vec<String>]) -> Vec<String> {
+    let mut res = run_case_inner(tree, invocations);
+    for (i, inv) in invocations.iter().enumerate() {
+        if inv.iter().any(|a| a == "--dry-run") {
+            // earlier dry runs change nothing, so the prior state is reached by the earlier real invocations
+            let prior: Vec<Vec<String>> = invocations[..i].iter().filter(|p| !p.iter().any(|a| a == "--dry-run")).cloned().collect();
+            res[i] = format!("{};{}", res[i], real_outcome(tree, &prior, inv));
+        }
+    }
+    res
 }
 
 pub fn emit<W: Write>(out: &mut W, id: usize, tree: &Snap, invocations: &[Vec<String>]) {
@@ -150,7 +188,10 @@ pub fn steal_stdout() -> std::fs::File {
 
 pub struct Workspace { pub tree: Snap, pub npatches: usize, pub names: Vec<String> }
 
-pub fn gen_workspace(rng: &mut Rng, rich: bool, max_patches: usize, allow_fail: bool) -> Workspace {
+pub fn gen_workspace(rng: &mut Rng, rich: bool, max_patches: usize, allow_fail: bool) -> Workspace { gen_workspace2(rng, rich, max_patches, allow_fail, 45, 40) }
+
+/// `fail_pct`: chance that the series has a failing patch; `more_pct`: chance for each later patch to fail as well
+pub fn gen_workspace2(rng: &mut Rng, rich: bool, max_patches: usize, allow_fail: bool, fail_pct: u32, more_pct: u32) -> Workspace {
     let mut gt = rand_tree(rng, rich);
     let mut tree = Snap::new();
     for (n, f) in &gt { tree.insert(n.as_bytes().to_vec(), Entry::File(f.mode & 0o7777, f.lines.concat())); }
@@ -158,9 +199,11 @@ pub fn gen_workspace(rng: &mut Rng, rich: bool, max_patches: usize, allow_fail: 
     let np = 1 + rng.below(max_patches);
     let mut series = Vec::new();
     let mut names = Vec::new();
-    let fail_at = if allow_fail && rng.chance(45) { Some(rng.below(np)) } else { None };
+    let fail_at = if allow_fail && rng.chance(fail_pct) { Some(rng.below(np)) } else { None };
     for i in 0..np {
-        let gp = gen_patch(rng, &mut gt, fail_at == Some(i), rich);
+        // patches behind the first failing one may fail as well (only a parallel or a dry run ever looks at them)
+        let fails_here = fail_at == Some(i) || (fail_at.map(|f| i > f).unwrap_or(false) && rng.chance(more_pct));
+        let gp = gen_patch(rng, &mut gt, fails_here, rich);
         let name = format!("p{}.patch", i);
         if gp.text.is_empty() && rng.chance(70) {
             // nothing generated: an empty patch file is a legal series entry too
@@ -398,9 +441,11 @@ pub fn run_sched<W: Write>(out: &mut W, seed: u64, n: usize, opts: &HashMap<Stri
     let mut id = 0;
     while id < n {
         let rich = rng.chance(20);
-        let ws = gen_workspace(&mut rng, rich, 5, true);
+        let pct = |k: &str, d: u32| -> u32 { opts.get(k).and_then(|s| s.parse().ok()).unwrap_or(d) };
+        let ws = gen_workspace2(&mut rng, rich, 5, true, pct("fail", 45), pct("morefail", 40));
         let threads = *rng.pick(&[2usize, 2, 3, 4, 8, 16]);
         let mut inv = gen_options(&mut rng, &[threads]);
+        if rng.chance(opts.get("dry").and_then(|s| s.parse().ok()).unwrap_or(0)) { inv.push("--dry-run".into()); }
         inv.extend(gen_goal(&mut rng, &ws));
         // probe
         let (_, log, _) = run_scheduled(&ws.tree, &inv, Some(vec![]));
